@@ -668,6 +668,10 @@ def _tidy_use_elements(svg: SVG):
     for ref, uses in groupby(use_els, key=_use_href):
         uses = list(uses)
         target = targets[ref]
+        # a target outside <defs> is itself drawn where it stands; giving it the
+        # paint of its uses would repaint that shape
+        if etree.QName(target.getparent().tag).localname != "defs":
+            continue
         for attr_name in sorted(_PAINT_ATTRIB_APPLY_PAINT_MAY_SET):
             values = [use.attrib[attr_name] for use in uses if attr_name in use.attrib]
             unique_values = set(values)
